@@ -16,12 +16,14 @@ LENGTHS = {
     'C08': {'quick': [14], 'thorough': [14, 15, 32]},
     'C09': {'quick': [7, 14], 'thorough': [7, 8, 14, 15, 32]},
     'C10': {'quick': [14], 'thorough': [14, 15, 32]},
+    'C07': {'quick': [14], 'thorough': [14, 15, 32]},
 }
 
 DF_FILTER = {
     # slices that can matter for the property (others are skipped: the property says nothing about them)
     'C08': lambda df: df in (17, 18, 20, 21),
     'C10': lambda df: df in (17, 18, 20, 21),
+    'C07': lambda df: df in (17, 18),
 }
 
 ASSUME = [
